@@ -90,6 +90,7 @@ def run_c15(tier, seed):
                 x["name"] = shared
         return m
 
+    versions = {}
     by_base = {}
     for c in cases:
         by_base.setdefault(meta[c["struct"]]["base"], {}).setdefault(c["struct"], []).append(c)
@@ -103,6 +104,7 @@ def run_c15(tier, seed):
                 mfcp, _ = pycodec.parse_schema(msch)
             except (RuntimeError, KeyError) as e:
                 raise core.Machinery("renamed twin %s of base %s not accepted by the front end: %s" % (name, base, e))
+            versions.setdefault(base, []).append((name, shared, msch, mfcp, per[name]))
             for c in per[name]:
                 val, canon = c["value"], c["bytes"]
                 chk.count(1, traces=1)
@@ -228,6 +230,42 @@ def run_c15(tier, seed):
                 if d != ("ok", val):
                     viol(side + ".decode", name, "value-differs" if d[0] == "ok" else d[0], {"value": val, "canonical": canon, "observed": da})
                 backends[side] += 1
+        # the successive versions of one struct (see the Python leg) loaded one after the other into the SAME run-time schema object
+        lines, plan = [], []
+        for base, vers in sorted(versions.items()):
+            for k, (name, shared, msch, mfcp, cs) in enumerate(vers):
+                try:
+                    binary = cppdriver.reflection_binary(mfcp)
+                except Exception as e:
+                    raise core.Machinery("reflection of a renamed twin failed: %s" % e)
+                bp = os.path.join(xdir, "ver_%d_%d.bin" % (base, k))
+                with open(bp, "wb") as f:
+                    f.write(binary)
+                lines.append("DL " + bp)
+                plan.append(("load", name, None, None, None))
+                t = {"k": "struct", "name": shared}
+                for c in cs[:12]:
+                    lines.append("DE %s %s" % (shared, " ".join(cppdriver.val_tokens(msch, t, c["value"], True))))
+                    lines.append("DD %s %s" % (shared, "".join("%02x" % b for b in c["bytes"]) or "-"))
+                    plan.append(("enc", name, c, msch, shared))
+                    plan.append(("dec", name, c, msch, shared))
+        ans = cppdriver.run(xexe, lines)
+        for (what, name, c, msch, shared), a in zip(plan, ans):
+            chk.count(1, traces=1)
+            if what == "load":
+                if not a.startswith("ok"):
+                    viol("cpp-dynamic.load", name, "reload-failed:as-a-later-version-of-one-struct", {"observed": a})
+            elif what == "enc":
+                e = parse_enc(a)
+                if e != ("ok", c["bytes"]):
+                    viol("cpp-dynamic.encode", name, ("bytes-differ" if e[0] == "ok" else e[0]) + ":as-a-later-version-of-one-struct",
+                         {"value": c["value"], "canonical": c["bytes"], "observed": a})
+            else:
+                d = parse_dec(msch, shared, a, True)
+                if d != ("ok", c["value"]):
+                    viol("cpp-dynamic.decode", name, ("value-differs" if d[0] == "ok" else d[0]) + ":as-a-later-version-of-one-struct",
+                         {"value": c["value"], "canonical": c["bytes"], "observed": a})
+        backends["cpp-dynamic-versions"] = len(plan)
     shutil.rmtree(out, ignore_errors=True)
     chk.notes["cases_per_backend"] = backends
     chk.sample({"base_and_twins": [s for s in sch["structs"] if meta[s["name"]]["base"] == 7][:3],
